@@ -174,7 +174,13 @@ impl CodePage {
         if *self == CodePage::UsAscii {
             ascii_decode(bytes)
         } else {
-            self.encoding().decode(bytes).0.into_owned()
+            // Not `decode()`, which sniffs for a byte order mark and, when it
+            // finds one, strips it and switches to that Unicode encoding:
+            // the bytes are in this code page, whatever they start with.
+            self.encoding()
+                .decode_without_bom_handling(bytes)
+                .0
+                .into_owned()
         }
     }
 
